@@ -5,6 +5,8 @@ import (
 	"flag"
 	"fmt"
 	"os"
+	"runtime"
+	"runtime/pprof"
 
 	"verif/h/drivers"
 )
@@ -27,6 +29,14 @@ func main() {
 	}
 	defer drivers.CleanupScratch()
 	code := drivers.Dispatch(id, *tier, *replay, fs.Args())
+	if p := os.Getenv("VERIF_HEAPPROF"); p != "" {
+		// diagnosis of the harness itself: what is still reachable when a driver has finished
+		if f, err := os.Create(p); err == nil {
+			runtime.GC()
+			pprof.WriteHeapProfile(f)
+			f.Close()
+		}
+	}
 	drivers.CleanupScratch()
 	os.Exit(code)
 }
